@@ -189,6 +189,23 @@ def ownership(repo, res):
     dcu = uo_.func("Unit.__deepcopy__")
     rets = [norm(n.value) for n in walk_no_nested(dcu.node) if isinstance(n, ast.Return)]
     res.check(rets in (["self.copy(deep=True)"],), "Unit.__deepcopy__", dcu.where(), "copy.deepcopy(unit) is unit.copy(deep=True)", found=rets, rid=r1)
+    # a registry argument is tested for presence by truth value in several places (Unit.__new__: `if registry and ...`,
+    # `registry or default`): the registry classes must not define __len__ / __bool__, or an empty registry
+    # (add_default_symbols=False) counts as absent and the default registry is used - and edited - instead
+    for cname in ("UnitRegistry", "_NonModifiableUnitRegistry"):
+        cd_ = reg.classes.get(cname)
+        if cd_ is None:
+            raise AnalysisError(f"{REG}: class {cname} not found")
+        falsy = [st.name for st in cd_.body if isinstance(st, ast.FunctionDef) and st.name in ("__len__", "__bool__")]
+        res.check(not falsy, f"{cname}:no-truth-value", f"{REG} class {cname}", f"{cname} defines {falsy}: an empty registry becomes falsy, and code that tests `if registry` / `registry or default_unit_registry` silently works on the default registry", "no __len__ / __bool__", falsy, rid=r1)
+    truthy_default = []
+    for mod_ in repo.mods(only_anchor=False):
+        for q_, fns_ in mod_.funcs.items():
+            for f_ in fns_:
+                for n_ in walk_no_nested(f_.node):
+                    if isinstance(n_, ast.BoolOp) and isinstance(n_.op, ast.Or) and len(n_.values) == 2 and norm(n_.values[0]) in ("registry", "unit_registry") and "default_unit_registry" in norm(n_.values[1]):
+                        truthy_default.append((mod_.rel, q_, norm(n_)))
+    res.check(not truthy_default, "registry-or-default", "unyt/*.py", "a registry argument is replaced by the default registry on its truth value (`registry or default_unit_registry`) instead of `is None`", "if registry is None: registry = default_unit_registry", truthy_default[:3], rid=r1)
     # module-level default registry
     d = reg.assign("default_unit_registry")
     res.check(isinstance(d, ast.Call) and norm(d) == "_NonModifiableUnitRegistry()", "default-registry", REG, "the default registry is built with its own table (no lut argument) by the non-modifiable class", found=norm(d), rid=r1)
@@ -383,6 +400,28 @@ def registry_selection(repo, res):
         if n_ret < 20:
             raise AnalysisError(f"{fnm.where()}: decision table of Unit.{dunder} has only {n_ret} returning rows")
         res.check(not wrong, f"Unit.{dunder}:left-registry", fnm.where(), f"Unit.{dunder} over {n_ret} operand pairs from different registries: the result belongs to the left operand's registry" + (f" - {wrong[0]}" if wrong else ""), "registry of the left operand", wrong[:3], rid=r4)
+    # quantity * Unit (Unit.__mul__ / __rmul__ with an operand that carries units): the product is built with the
+    # quantity's unit as the LEFT factor, so the result lives in the quantity's registry (Unit * Unit keeps the left
+    # factor's registry, table above)
+    from engine.sem import summarise as _summ
+
+    mulf = uo.func("Unit.__mul__")
+    other = mulf.params[1]
+    n_q, wrong_q = 0, []
+    for x in _summ(mulf):
+        if x.kind != "return" or not x.has(f"getattr({other}, 'units', None) is None", False) or not x.has(f"getattr({other}, 'is_Unit', False)", False):
+            continue
+        v = ast.parse(x.value, mode="eval").body
+        if not (isinstance(v, ast.Call) and len(v.args) >= 2):
+            raise AnalysisError(f"{mulf.where()}: quantity branch of Unit.__mul__ returns something unexpected: {x.value[:80]}")
+        n_q += 1
+        u_arg = v.args[1]
+        ok_q = isinstance(u_arg, ast.BinOp) and isinstance(u_arg.op, ast.Mult) and norm(u_arg.left) == f"getattr({other}, 'units', None)" and norm(u_arg.right) == "self"
+        if not ok_q:
+            wrong_q.append(norm(u_arg))
+    if n_q < 2:
+        raise AnalysisError(f"{mulf.where()}: quantity branch of Unit.__mul__ not found")
+    res.check(not wrong_q, "Unit.__mul__:quantity-operand-left", mulf.where(), "for `quantity * Unit` the result's unit must be (quantity's unit) * (the Unit): with the factors the other way round the product is created in the Unit's registry - data of registry A multiplied by unyt.s end up in the default registry", f"getattr({other}, 'units', None) * self", wrong_q[:2], rid=r4)
     # unyt_array.__new__: a unit from another registry is re-created, not re-pointed (validated route)
     new = arr.func("unyt_array.__new__")
     res.fn(new)
